@@ -109,8 +109,8 @@ func ttlValue(s string) (uint64, bool) {
 }
 
 type dstate struct {
-	origin                  string
-	owner                   *string
+	origin                string
+	owner                 *string
 	dollar, stated, deflt *uint32
 }
 
@@ -605,6 +605,158 @@ func render(s style, origin string, es []entry) string {
 	return out
 }
 
+// ---------- the token skeleton of a zone (as Model/ZoneSpec.v sk_zone) ----------
+
+type stok struct {
+	val  uint8
+	text string
+	torc uint16
+}
+
+const (
+	zString  = 1
+	zBlank   = 2
+	zQuote   = 3
+	zNewline = 4
+	zRrtpe   = 5
+	zOwner   = 6
+	zClass   = 7
+	zDirOrig = 8
+	zDirTTL  = 9
+)
+
+func skeleton(es []entry) []stok {
+	var o []stok
+	bl := stok{zBlank, " ", 0}
+	for _, e := range es {
+		switch e.kind {
+		case 'o':
+			o = append(o, stok{zDirOrig, "", 0}, bl, stok{zString, e.arg, 0})
+		case 't':
+			o = append(o, stok{zDirTTL, "", 0}, bl, stok{zString, e.arg, 0})
+		case 'r':
+			if e.owner != nil {
+				o = append(o, stok{zOwner, *e.owner, 0})
+			}
+			var ttl, cls []stok
+			if e.ttl != nil {
+				ttl = []stok{bl, {zString, *e.ttl, 0}}
+			}
+			if e.class != nil {
+				cls = []stok{bl, {zClass, "", *e.class}}
+			}
+			if e.ttlFirst {
+				o = append(append(o, ttl...), cls...)
+			} else {
+				o = append(append(o, cls...), ttl...)
+			}
+			o = append(o, bl, stok{zRrtpe, "", e.typ}, bl)
+			switch e.rd.kind {
+			case 'N':
+				o = append(o, stok{zString, e.rd.name, 0})
+			case 'A':
+				o = append(o, stok{zString, e.rd.atext, 0})
+			case 'T':
+				for i, t := range e.rd.txt {
+					if i > 0 {
+						o = append(o, bl)
+					}
+					o = append(o, stok{zQuote, "\"", 0})
+					if t != "" {
+						o = append(o, stok{zString, t, 0})
+					}
+					o = append(o, stok{zQuote, "\"", 0})
+				}
+			default:
+				o = append(o, stok{zString, "\\#", 0}, bl, stok{zString, Itoa(len(strings.Join(e.rd.hexs, "")) / 2), 0})
+				for _, w := range e.rd.hexs {
+					o = append(o, bl, stok{zString, w, 0})
+				}
+			}
+		}
+		o = append(o, stok{zNewline, "\n", 0})
+	}
+	return o
+}
+
+// plainRender: single blanks, no comments, no parentheses, every string quoted
+func plainRender(es []entry) string {
+	var sb strings.Builder
+	for _, e := range es {
+		switch e.kind {
+		case 'o':
+			sb.WriteString("$ORIGIN " + e.arg)
+		case 't':
+			sb.WriteString("$TTL " + e.arg)
+		case 'r':
+			if e.owner != nil {
+				sb.WriteString(*e.owner)
+			}
+			cls := ""
+			if e.class != nil {
+				cls = " CLASS" + Itoa(int(*e.class))
+			}
+			ttl := ""
+			if e.ttl != nil {
+				ttl = " " + *e.ttl
+			}
+			if e.ttlFirst {
+				sb.WriteString(ttl + cls)
+			} else {
+				sb.WriteString(cls + ttl)
+			}
+			if m, ok := dns.TypeToString[e.typ]; ok {
+				sb.WriteString(" " + m)
+			} else {
+				sb.WriteString(" TYPE" + Itoa(int(e.typ)))
+			}
+			switch e.rd.kind {
+			case 'N':
+				sb.WriteString(" " + e.rd.name)
+			case 'A':
+				sb.WriteString(" " + e.rd.atext)
+			case 'T':
+				for _, t := range e.rd.txt {
+					sb.WriteString(" \"" + t + "\"")
+				}
+			default:
+				sb.WriteString(" \\# " + Itoa(len(strings.Join(e.rd.hexs, ""))/2))
+				for _, w := range e.rd.hexs {
+					sb.WriteString(" " + w)
+				}
+			}
+		}
+		sb.WriteString("\n")
+	}
+	return sb.String()
+}
+
+// skeletonCheck: the lexer's tokens for the plain rendering are the skeleton
+func skeletonCheck(es []entry) {
+	text := plainRender(es)
+	sk := skeleton(es)
+	toks := dns.VerifLexTokens(text, len(sk)+10)
+	stat["skeleton_checked"]++
+	ok := len(toks) == len(sk)
+	for i := 0; ok && i < len(sk); i++ {
+		t, k := toks[i], sk[i]
+		if t.Value != k.val || t.Err || t.Token == "" {
+			ok = false
+		}
+		if (k.val == zString || k.val == zOwner || k.val == zQuote) && t.Token != k.text {
+			ok = false
+		}
+		if (k.val == zRrtpe || k.val == zClass) && t.Torc != k.torc {
+			ok = false
+		}
+	}
+	if !ok {
+		Viol("C06/lex-render/skeleton", "the token stream of the plain rendering is not the zone's skeleton",
+			map[string]any{"zone": encode(es), "text_hex": Hs(text)})
+	}
+	z.EmitD("skel", []string{encode(es), z.Lit(text).String()}, Btoa(ok))
+}
+
 // ---------- comparison ----------
 
 func showRecs(rs []rec) string {
@@ -642,6 +794,7 @@ func semanticStream(r *Rng, nzones, nrender int) {
 			continue
 		}
 		stat["zones_with_denotation"]++
+		skeletonCheck(es)
 		wantS := showRecs(want)
 		z.EmitD("denote", []string{Hs(origin), dt, encode(es)}, wantS)
 		for k := 0; k < nrender; k++ {
@@ -735,12 +888,12 @@ func shapeStream() {
 // ---------- $GENERATE ----------
 
 type piece struct {
-	lit           string
-	iter          bool
-	off           int64
-	width         int
-	base          byte // 0: plain $
-	braced        bool
+	lit    string
+	iter   bool
+	off    int64
+	width  int
+	base   byte // 0: plain $
+	braced bool
 }
 
 func fmtIter(v int64, width int, base byte) string {
